@@ -332,15 +332,17 @@ impl Oplog {
                    8 + 2 * header_enc(*header).len() as int)
             && is_truncate(r->Ok_0@[1], Store::Oplog, 8192)
             && Oplog::cur_hbit(final(self).header_bits) != Oplog::cur_hbit(old(self).header_bits),
-        // clearing traces: BOTH slots are rewritten, each zero-padded to the full 4096 bytes, then the truncate
+        // clearing traces: BOTH slots are rewritten, each zero-padded to the full 4096 bytes. C02 (crash between any two of these
+        // operations): the first slot write makes the pending entries stale (the current header bit flips), the second one flips
+        // it back - so the entries must be truncated away BETWEEN the two, otherwise a crash after the second write would replay
+        // them on top of a header that already contains them
         clear_traces ==> r->Ok_0@.len() == 3
             && is_slot_write(r->Ok_0@[0], if Oplog::cur_hbit(old(self).header_bits) { 0int } else { 4096int }, *header,
                    if Oplog::cur_hbit(old(self).header_bits) { !old(self).header_bits[0] } else { !old(self).header_bits[1] }, 4096)
-            && is_slot_write(r->Ok_0@[1], if Oplog::cur_hbit(old(self).header_bits) { 4096int } else { 0int }, *header,
+            && is_truncate(r->Ok_0@[1], Store::Oplog, 8192)
+            && is_slot_write(r->Ok_0@[2], if Oplog::cur_hbit(old(self).header_bits) { 4096int } else { 0int }, *header,
                    if Oplog::cur_hbit(old(self).header_bits) { !old(self).header_bits[1] } else { !old(self).header_bits[0] }, 4096)
-            && is_truncate(r->Ok_0@[2], Store::Oplog, 8192)
-    sub `infos_to_flush\.into_vec\(\)\.drain\(0\.\.1\)\.collect\(\)` => `vp_take_first(infos_to_flush.into_vec())`
-    sub `combined_infos_to_flush\.extend\(infos_to_flush\.into_vec\(\)\)` => `vp_extend(&mut combined_infos_to_flush, infos_to_flush.into_vec())`
+    sub `combined_infos_to_flush\.extend\(infos_to_flush\.into_vec\(\)\.drain\(0\.\.1\)\)` => `vp_extend(&mut combined_infos_to_flush, vp_take_first(infos_to_flush.into_vec()))`
     @*/
 }
 
